@@ -116,7 +116,9 @@ class DM14Server:
                 data[0],
                 sa,
                 j1939.ParameterGroupNumber.PGN.DM15,
-                self.error if self.error != 0x00 else 0x2,
+                # a refusal set up by the application (busy flag) carries its reason,
+                # a foreign request during a running transaction is answered "busy"
+                self.error if (self._busy and self.error != 0x00) else 0x2,
                 0x7,
             )
             self.set_busy(False)
